@@ -21,12 +21,12 @@ M = [
     ('C05-o2', S + 'impls/types/string_transformer/impl/replace/impl.py', "    if rest != '':\n        yield rest", "    if rest.strip() != '':\n        yield rest", ['C05']),
     ('C06-o1', S + 'impls/types/matcher/impls/combinator_matchers.py', "        for operand in self._operands:", "        for operand in reversed(self._operands):", ['C06']),
     ('C08-o1', S + 'type_val_deps/sym_ref/w_str_rend_restrictions/reference_restrictions.py', "        return self._check_indirect(symbol_table, (), references)", "        return None", ['C08']),
-    ('C11-o1', S + 'impls/instructions/multi_phase/timeout/impl.py', None, None, ['C11', 'C19']),
-    ('C13-o1', S + 'util/interval/w_inversion/combinations.py', "        max(non_none_lowers)\n", "        min(non_none_lowers)\n", ['C13']),
-    ('C15-o1', S + 'impls/types/files_matcher/models.py', None, None, ['C15']),
-    ('C16-o1', S + 'test_suite/reporters/simple_progress_reporter.py', None, None, ['C16']),
+    ('C11-o1', S + 'impls/instructions/multi_phase/environ/impl.py', "        if Phase.NON_ACT in self._phases:", "        if Phase.NON_ACT in self._phases or Phase.ACT in self._phases:", ['C11']),
+    ('C13-o1', S + 'util/interval/w_inversion/combinations.py', "        min(non_none_uppers)\n", "        max(non_none_uppers) - 1\n", ['C13']),
+    ('C15-o1', S + 'impls/types/files_matcher/models.py', "        return self._max_depth is not None and depth == self._max_depth", "        return self._max_depth is not None and depth + 1 == self._max_depth", ['C15']),
+    ('C15-o2', S + 'impls/types/files_matcher/models.py', "        return self._min_depth is None or depth >= self._min_depth", "        return self._min_depth is None or depth > self._min_depth", ['C15']),
+    ('C16-o1', S + 'test_suite/reporters/simple_progress_reporter.py', "                    FullExeResultStatus.XFAIL\n                    }", "                    FullExeResultStatus.XFAIL,\n                    FullExeResultStatus.XPASS,\n                    }", ['C16']),
     ('C19-o1', S + 'util/process_execution/process_executor.py', "                timeout=settings.timeout_in_seconds,\n", "", ['C19', 'C11']),
-    ('C20-o1', S + 'cli_default/program_modes/test_case/phases/cleanup.py', None, None, ['C20']),
 ]
 
 
